@@ -28,7 +28,7 @@ import re
 
 from harness import valcodec as vc
 
-STREAMS = ['split-enumerated', 'split-random', 'split-malformed', 'argcount', 'infer']
+STREAMS = ['split-enumerated', 'split-random', 'split-malformed', 'argcount', 'infer', 'variant-wire']
 THEOREMS = ['split_render', 'split_render_lazy', 'split_first', 'split_concat', 'split_each_complete',
             'split_count', 'render_injective', 'decomposition_unique', 'split_agrees_with_grammar',
             'argcount_eq_types', 'infer_single_complete_type', 'infer_splits_into_one', 'infer_fails_iff',
@@ -920,10 +920,18 @@ def run_split(ctx, marshal, stream, sigs, valid):
         ctx.stat('%s:len=%s' % (stream, len(s) if len(s) < 10 else '%d+' % (len(s) // 10 * 10)))
         if not valid:
             ctx.stat('%s:%s' % (stream, 'ok' if ob.startswith('ok') else 'raises'))
-        if out is not None:
-            if canon_err(out[2 * i]) != canon_err(ob):
+        if out is not None and valid:
+            if out[2 * i] != ob:
                 ctx.disagree(stream, {'op': 'split', 'sig': s}, out[2 * i], ob)
-            if s and canon_err(out[2 * i + 1]) != canon_err(of):
+            if s and out[2 * i + 1] != of:
+                ctx.disagree(stream, {'op': 'first', 'sig': s}, out[2 * i + 1], of)
+        elif out is not None:
+            # malformed input: the property says nothing.  Whatever the implementation ACCEPTS must be what the
+            # model yields; an implementation that refuses more (validation up front, another exception class)
+            # is not a disagreement.
+            if ob.startswith('ok') and out[2 * i] != ob:
+                ctx.disagree(stream, {'op': 'split', 'sig': s}, out[2 * i], ob)
+            if s and of.startswith('ok') and out[2 * i + 1] != of:
                 ctx.disagree(stream, {'op': 'first', 'sig': s}, out[2 * i + 1], of)
         if valid:
             check_split_oracle(ctx, s, pieces, ob)
@@ -967,7 +975,8 @@ def run_argcount(ctx, marshal, triples):
         if out is not None:
             mo = out[3 * i:3 * i + 3]
             mv = [int(x[3:]) for x in mo] if all(x.startswith('ok ') for x in mo) else 'err'
-            if mv != canon_err(ob):
+            if mv != canon_err(ob) and (valid or canon_err(ob) != 'err'):
+                # (on a malformed signature an implementation that refuses more than the model is tolerated)
                 ctx.disagree('argcount', {'op': 'nargs', 'sigs': list(t)}, mv, ob)
         if valid:
             want = [len(parse_all(x)) for x in t]
@@ -983,6 +992,19 @@ def builtin_only(v):
         if py_class(x) is None:
             return False
     return True
+
+
+def typeless_somewhere(v):
+    """Some sub-value has no DBus type (an int beyond 64 bits, an empty tuple, a container dict key)."""
+    for x in walk(v):
+        c = py_class(x)
+        if c == 'int' and natural_sig(x) is None:
+            return True
+        if c == 'tuple' and not len(x):
+            return True
+        if c == 'dict' and any(py_class(k) in ('list', 'tuple', 'dict', 'bytearray', None) for k in x):
+            return True
+    return False
 
 
 def infer_oracle(ctx, marshal, v, ob, inp):
@@ -1001,8 +1023,8 @@ def infer_oracle(ctx, marshal, v, ob, inp):
         if w and sig != WRAPPER_SIG[w]:
             ctx.violation('wrapper-selects-wrong-type', '%s instance infers %r' % (w, sig),
                           inp=inp, observed=sig, expected=WRAPPER_SIG[w])
-    elif nat is not None and len(nat) <= 255 and max_depth(nat) <= 32:
-        # only values that HAVE a DBus type must get a signature (a typeless value may raise)
+    elif nat is not None and len(nat) <= 255 and max_depth(nat) <= 32 and not typeless_somewhere(v):
+        # only values that HAVE a DBus type, throughout, must get a signature (a typeless value may raise)
         ctx.violation('inference-fails-on-supported-value', 'sigFromPy raises %s on a value built from the '
                       'supported classes that has the DBus type %s' % (ob[4:], nat), inp=inp,
                       observed=ob, expected=nat)
@@ -1018,7 +1040,7 @@ def run_infer(ctx, marshal, values):
         ctx.stat('infer:top=' + type(v).__name__)
         ctx.stat('infer:' + ('raises' if ob.startswith('err') else 'ok'))
         inp = {'op': 'infer', 'value': lines[i][6:]}
-        typeless = builtin_only(v) and natural_sig(v) is None
+        typeless = typeless_somewhere(v) or (builtin_only(v) and natural_sig(v) is None)
         if out is not None and not typeless and canon_err(out[i]) != canon_err(ob):
             # (what happens to a value WITHOUT a DBus type - 2**64, a container holding one - is not compared)
             ctx.disagree('infer', inp, out[i], ob)
@@ -1059,6 +1081,36 @@ def run_roundtrip(ctx, marshal, cases):
             infer_oracle(ctx, marshal, v, obs_infer(marshal, v), inp)
 
 
+def obs_vrt(marshal, v, le, off):
+    """marshal('v', [v], off, le): count and bytes; then unmarshal of those bytes: count and value."""
+    try:
+        n, chunks = marshal.marshal('v', [v], off, le)
+        data = b''.join(chunks)
+    except Exception:
+        return 'err'
+    try:
+        n2, out = marshal.unmarshal('v', b'\xaa' * off + data, off, le)
+        return 'ok %d %s %d %s' % (n, vc.bytes_hex(data), n2, vc.to_line(out[0]))
+    except Exception:
+        return 'ok %d %s undecodable' % (n, vc.bytes_hex(data))
+
+
+def run_wire(ctx, marshal, cases):
+    """Correspondence of the code model used by `variant_roundtrip` (Wire/Code.lean: marshal_variant,
+    unmarshal_variant and below) with the implementation: the bytes, the counts, the decoded value.
+    Only whether marshal raises is compared when it raises (values outside the claim)."""
+    cases = [(v, le, off) for v, le, off in cases]
+    lines = ['vrt %d %d %s' % (1 if le else 0, off, vc.to_line(v)) for v, le, off in cases]
+    out = ctx.model(lines)
+    for i, (v, le, off) in enumerate(cases):
+        ob = obs_vrt(marshal, v, le, off)
+        ctx.impl_trace()
+        ctx.case('variant-wire', sample=lines[i], nontrivial=isinstance(v, (list, tuple, dict)))
+        ctx.stat('variant-wire:' + ob.split(' ')[0])
+        if out is not None and out[i] != ob:
+            ctx.disagree('variant-wire', {'op': 'wire', 'value': lines[i][4:]}, out[i][:300], ob[:300])
+
+
 def run_case(ctx, marshal, case):
     op = case.get('op')
     if op in ('split', 'first'):
@@ -1068,6 +1120,9 @@ def run_case(ctx, marshal, case):
         run_argcount(ctx, marshal, [tuple(case['sigs'])])
     elif op == 'infer':
         run_infer(ctx, marshal, [vc.from_line(case['value'])])
+    elif op == 'wire':
+        toks = case['value'].split()
+        run_wire(ctx, marshal, [(vc.from_line(' '.join(toks[2:])), toks[0] == '1', int(toks[1]))])
     elif op == 'roundtrip':
         if 'spec' in case:
             v = build_x(case['spec'])
@@ -1076,6 +1131,8 @@ def run_case(ctx, marshal, case):
             v = vc.from_line(case['value'])
             inp = {'op': 'roundtrip', 'value': case['value']}
             run_infer(ctx, marshal, [v])
+        if 'spec' not in case:
+            run_wire(ctx, marshal, [(v, True, 0), (v, False, 5)])
         if 'le' in case:
             combos = [(bool(case['le']), int(case.get('off', 0)))]
         else:
@@ -1167,6 +1224,10 @@ def run(ctx):
             v = g_any(rng, marshal, rng.choice([0, 1, 2, 2, 3, 3, 4]), exotic=False)
         cases.append((v, {'op': 'roundtrip', 'value': vc.to_line(v)}, le, off))
     run_roundtrip(ctx, marshal, cases)
+
+    # the same values (those inside the line syntax) through the code model of marshal / unmarshal
+    wire = [(v, le, off) for v, inp, le, off in cases if 'value' in inp]
+    run_wire(ctx, marshal, wire[:ctx.scale(quick=8000, thorough=120000)])
 
 
 def max_depth(s):
